@@ -371,16 +371,17 @@ func genSlots(rng *common.Rng, cls int, variant int) []slotDef {
 		j := rng.Intn(i + 1)
 		perm[i], perm[j] = perm[j], perm[i]
 	}
-	used := map[int]bool{} // an initarg is not put on two slots of one form (Go map order would decide)
 	var out []slotDef
 	for i := 0; i < n; i++ {
 		sd := slotDef{Name: perm[i]}
 		na := rng.Intn(3)
+		used := map[int]bool{} // an initarg is not written twice on one slot
 		for a := 0; a < na; a++ {
 			ia := rng.Intn(nSlots)
 			if rng.Chance(55) {
 				ia = sd.Name // the usual :initarg named after the slot (shared with other classes)
 			}
+			// one initarg on two slots of the same form, or of a class and its superclass, fills both (C12-5)
 			if !used[ia] {
 				used[ia] = true
 				sd.Initargs = append(sd.Initargs, ia)
